@@ -334,13 +334,9 @@ Proof. intros H. destruct (ident_ok_parts s H) as (Hc & Hn & _). destruct r; try
   cbn [apply_naming_convention field_rule]. pose proof (pascal_nonempty true s Hn) as Hne.
   unfold camel_guard, lower_first. destruct (pascal true s) as [|c rest]; [congruence|reflexivity]. Qed.
 
-(* apply_to_variant as called (with its byte slices for camelCase) never panics on an identifier *)
-Lemma apply_variant_ok r s : ident_ok s = true -> apply_to_variant_b r s = Ok (variant_rule r s).
-Proof. intros H. destruct (ident_ok_parts s H) as (Hc & _ & _). destruct r; try reflexivity.
-  cbn [apply_to_variant_b variant_rule]. unfold lower_first_b, lower_first.
-  destruct s as [|c [|d rest]]; [discriminate|reflexivity|].
-  cbn [forallb] in Hc. apply andb_true_iff in Hc as [_ Hc]. apply andb_true_iff in Hc as [Hd _].
-  destruct (cf_cont d Hd) as [Hcont _]. rewrite Hcont. reflexivity. Qed.
+(* compute_variant_name's rule part is serde's variant rule *)
+Lemma apply_variant_ok r s : (match r with RCamel => variant_camel s | _ => apply_to_variant r s end) = variant_rule r s.
+Proof. destruct r; reflexivity. Qed.
 
 (* where the field rule and the variant rule agree *)
 Lemma map_lower_id s : has_upper s = false -> map lower s = s.
